@@ -10,8 +10,15 @@
   on it, it is recorded from the running code; the theorems hold for every order).
 
   The order in which draws are consumed is the code's, so a recorded draw trace replays.
+
+  `randomize` (end of this file) is the same function with the set order no longer an oracle: `level_sessions` and
+  `next_level_sessions` are `PySet`s (Model/PySet.lean, CPython's set for small ints), built by the very operations
+  of the code (`{default_session}`, `set()`, `.update(list)`, `next_level_sessions - set(available_sessions)`) and
+  iterated in table order.  `randomize` is a function of (arguments, draw stream, choice oracle) alone; it is an
+  instance of `randomizeCore` (Proofs/Lemmas/RandomizePy.lean), so every theorem for all oracles applies to it.
   Core Lean only (linked into the `c16` driver).
 -/
+import Gallia.Model.PySet
 namespace Gallia.Randomize
 
 /-! ### tables read from the service registry / the enums (agreement with `Gen.C16Tables` is a proof obligation) -/
@@ -362,6 +369,84 @@ def randomizeGen (tb : Tables) (p : Params) (o : Oracles) : Result :=
 /-- the function of DESIGN section 7: Boolean stream, choice oracle (and the set iteration order) -/
 def randomizeCore (p : Params) (draws : Nat → Bool) (choice : Nat → Nat) (order : Nat → List Nat) : Model :=
   (randomizeGen isoTables p { draw := fun i _ => draws i, choice := choice, order := order }).model
+
+/-! ### the same with CPython's set order computed instead of given
+
+  Sets of `randomize` and what is observed of each:
+    * `level_sessions`       : `{default_session}`, later `next_level_sessions - set(available_sessions)`; `len`, iterated
+                               (the iteration order decides which draws belong to which source session)  -> `PySet`
+    * `next_level_sessions`  : `set()`, `.update(transitions)` (a list), iterated (each step adds `default_session` to a
+                               different `session_transitions[session]`: commutative), left operand of `-` -> `PySet`
+    * `set(available_sessions)` : built from an ascending list, right operand of `-` (membership, `len`) -> `PySet`
+    * `session_transitions[i]`  : `set()`, `{default_session}`, `.update(list)`, `.add`, `len`, `sorted(...)`; never
+                               iterated unsorted -> order-free, kept as the strictly increasing list (`Trans`)
+-/
+
+open Gallia.PySet (PySet)
+
+/-- body of `for session in level_sessions:` with `next_level_sessions` a CPython set -/
+def levelStepPy (comb : List Nat) (d : Nat → Thr → Bool) (k : Thr) :
+    Trans × PySet × Nat → Nat → Trans × PySet × Nat
+  | (t, nxt, i), s =>
+    let tr := drawFilter d k i comb
+    (addAll t s tr, PySet.update nxt tr, i + comb.length)
+
+/-- one pass of the `while` body; `len(level_sessions)` is `used`, the `for` loops walk the tables -/
+def levelBodyPy (comb : List Nat) (d : Nat → Thr → Bool) (t : Trans) (lvl : PySet) (level i : Nat) :
+    Trans × PySet × Nat :=
+  let r := (PySet.toList lvl).foldl (levelStepPy comb d (.trans lvl.used level)) (t, PySet.empty, i)
+  (addDefault r.1 (PySet.toList r.2.1), r.2.1, r.2.2)
+
+/-- `next_level_sessions - set(available_sessions)` with `available_sessions` taken before the pass -/
+def nextLevelPy (t : Trans) (nxt : PySet) : PySet :=
+  PySet.difference nxt (PySet.ofList (available t))
+
+/-- the `while len(level_sessions) > 0` loop, at most `fuel` passes (every pass but the last makes a session
+    available, so `nSessions + 1` passes are never exhausted: `levelsPy_eq_levels`); also returns the iteration
+    order of every level -/
+def levelsPy (comb : List Nat) (d : Nat → Thr → Bool) :
+    Nat → Trans → PySet → Nat → Nat → Trans × Nat × Nat × List (List Nat)
+  | 0, t, _, level, i => (t, i, level, [])
+  | fuel + 1, t, lvl, level, i =>
+    let b := levelBodyPy comb d t lvl level i
+    let nl := nextLevelPy t b.2.1
+    if nl.used = 0 then (b.1, b.2.2, level + 1, [PySet.toList lvl])
+    else
+      let r := levelsPy comb d fuel b.1 nl (level + 1) b.2.2
+      (r.1, r.2.1, r.2.2.1, PySet.toList lvl :: r.2.2.2)
+
+structure ResultPy where
+  model : Model
+  draws : Nat
+  choices : Nat
+  levels : Nat
+  /-- iteration order of `level_sessions` in every pass -/
+  orders : List (List Nat)
+deriving Repr
+
+def noOrder (draw : Nat → Thr → Bool) (choice : Nat → Nat) : Oracles := ⟨draw, choice, fun _ => []⟩
+
+def randomizePyGen (tb : Tables) (p : Params) (draw : Nat → Thr → Bool) (choice : Nat → Nat) : ResultPy :=
+  let comb := p.mandatorySessions ++ p.optionalSessions
+  let l := levelsPy comb draw (nSessions + 1) initTrans (PySet.ofList [defaultSession]) 0 0
+  let m := p.mandatorySessions.foldl (mandStep (noOrder draw choice)) (l.1, 0)
+  let r := (List.range nSessions).foldl (sessionStep tb p draw m.1) ([], l.2.1)
+  { model := r.1, draws := r.2, choices := m.2, levels := l.2.2.1, orders := l.2.2.2 }
+
+/-- `RandomUDSServer.randomize` as a function of the arguments, the Boolean draw stream and the choice oracle -
+    nothing else -/
+def randomize (p : Params) (draws : Nat → Bool) (choice : Nat → Nat) : Model :=
+  (randomizePyGen isoTables p (fun i _ => draws i) choice).model
+
+/-- the set iteration orders `randomize` goes through, as an order oracle for `randomizeCore` -/
+def pyOrder (p : Params) (draws : Nat → Bool) (choice : Nat → Nat) : Nat → List Nat :=
+  fun level => (randomizePyGen isoTables p (fun i _ => draws i) choice).orders.getD level []
+
+/-- `RandomnessParameters.optional_services` default:
+    `list(set(UDSIsoServices) - set(mandatory_services + [UDSIsoServices.NegativeResponse]))`
+    (`all` = the enum in definition order; members hash like ints) -/
+def defaultOptionalServices (all mandatory : List Nat) (negativeResponse : Nat) : List Nat :=
+  PySet.toList (PySet.difference (PySet.ofList all) (PySet.ofList (mandatory ++ [negativeResponse])))
 
 /-! ### executable well-formedness predicate (evaluated on the *implementation's* model by the harness) -/
 
